@@ -336,7 +336,12 @@ def run_brew(case, keep_dir=None):
                 conf.peps_from_scores = _const_peps
                 try:
                     prefixes = ["coll%d" % i for i in range(len(paths))] if len(paths) > 1 else [None]
-                    mokapot.assign_confidence(dss, max_workers=case.get("workers", 1), scores=list(scores),
+                    conf_scores = [np.asarray(sc, dtype=float) for sc in scores]
+                    if case.get("tiebreak"):
+                        # break ties between folds deterministically (row index * 2^-20) so that the result
+                        # files are a function of the scores alone, whatever the sort / file order
+                        conf_scores = [sc + np.arange(len(sc)) * 2.0 ** -20 for sc in conf_scores]
+                    mokapot.assign_confidence(dss, max_workers=case.get("workers", 1), scores=conf_scores,
                                               descs=list(descs), eval_fdr=0.5, dest_dir=out, prefixes=prefixes,
                                               decoys=True)
                 finally:
@@ -366,6 +371,7 @@ def run_brew(case, keep_dir=None):
             "best_feat": [m.best_feat if isinstance(m.best_feat, str) else None for m in models],
             "model_desc": [None if m.desc is None else bool(m.desc) for m in models],
             "conf": conf_files, "leftovers": leftovers,
+            "conf_scores": [[Fraction(float(v)) for v in sc] for sc in conf_scores] if case.get("confidence") else None,
             "memory": [sorted(getattr(m.estimator, "mem_", {}).keys()) for m in models],
             "seen": [dict(getattr(m.estimator, "seen_", {})) for m in models],
             "features": [list(ds.feature_columns) for ds in dss],
